@@ -232,63 +232,78 @@ pub fn c04_sweep(max_fns: usize, mut visit: impl FnMut(&[Function], Option<usize
 // ---------------------------------------------------------------------------
 // C05
 
+fn c05_module(rng: &mut Rng, i: usize, addr0: usize, force_relink: bool) -> Module {
+    let mut m = Module::new();
+    let mut addr = Addr(addr0);
+    let mut t = TB::new("T");
+    t.nfields = rng.range(1, 3);
+    for k in 0..rng.range(2, 7) {
+        let recv = match rng.below(3) {
+            0 => None,
+            1 => Some(Some(true)),
+            _ => Some(Some(false)),
+        };
+        let f = func(rng, &format!("f{k}"), recv, 7, 6);
+        // a few addresses that cannot be mapped: judged on the emitted text only
+        let a = match rng.below(12) {
+            0 if !force_relink => 0x10 + k,
+            1 if !force_relink => 0x7FFF_FFFF_FFFF_0000 + k * 0x40,
+            2 if !force_relink => 0xFFFF_8000 + k * 0x40,
+            // above 4 GiB, with leading zero digits in the low half
+            3 if !force_relink => ((rng.below(0x7FFF) + 1) << 32) | (rng.below(0x0FFF_FFFF) & !0x3F) | (k * 0x40),
+            4 if !force_relink => (1usize << (32 + rng.below(30))) + k * 0x40,
+            _ => addr.next() + rng.below(16),
+        };
+        t.impl_fns.push(with_address(f, a));
+    }
+    if i % 4 == 1 || force_relink {
+        // parameters that look like the receiver: a pointer to the type itself, named like
+        // the wrapper's own first parameter
+        let mutable = rng.coin();
+        let own = if mutable { Type::ident("T").mut_pointer() } else { Type::ident("T").const_pointer() };
+        let mut g = Function::new(
+            (Visibility::Public, "relink"),
+            [if mutable { Argument::MutSelf } else { Argument::ConstSelf }, Argument::named("a", Type::ident("u32")), Argument::named("this", own.clone()), Argument::named("f", own)],
+        );
+        if rng.coin() || force_relink {
+            g.return_type = Some(Type::ident("T").const_pointer());
+        }
+        t.impl_fns.push(with_address(g, addr.next()));
+    }
+    t.add_to(&mut m);
+    // several impl blocks for one type are one set of functions
+    if i % 3 == 0 && m.impls.len() == 1 && m.impls[0].functions.len() >= 2 {
+        let blk = m.impls.remove(0);
+        let cut = rng.range(1, blk.functions.len() - 1);
+        m.impls.push(FunctionBlock::new(blk.name.as_str(), blk.functions[..cut].to_vec()));
+        m.impls.push(FunctionBlock::new(blk.name.as_str(), blk.functions[cut..].to_vec()));
+    }
+    // through the concrete syntax: any spelling of the literals
+    let text = crate::render::render_random(&m, rng);
+    match pyxis::parser::parse_str(&text) {
+        Ok(p) => p,
+        Err(_) => m,
+    }
+}
+
 pub fn c05_cases(seed: u64, first_id: usize, n: usize) -> Vec<Case> {
     let mut out = vec![];
     for i in 0..n {
         let mut rng = Rng::derive(seed, 0x05AA_0000 + i as u64);
         let id = format!("k{}_", first_id + i);
-        let mut m = Module::new();
-        let mut addr = Addr(0x2000_0000 + i * 0x2000);
-        let mut t = TB::new("T");
-        t.nfields = rng.range(1, 3);
-        for k in 0..rng.range(2, 7) {
-            let recv = match rng.below(3) {
-                0 => None,
-                1 => Some(Some(true)),
-                _ => Some(Some(false)),
-            };
-            let f = func(&mut rng, &format!("f{k}"), recv, 7, 6);
-            // a few addresses that cannot be mapped: judged on the emitted text only
-            let a = match rng.below(12) {
-                0 => 0x10 + k,
-                1 => 0x7FFF_FFFF_FFFF_0000 + k * 0x40,
-                2 => 0xFFFF_8000 + k * 0x40,
-                // above 4 GiB, with leading zero digits in the low half
-                3 => ((rng.below(0x7FFF) + 1) << 32) | (rng.below(0x0FFF_FFFF) & !0x3F) | (k * 0x40),
-                4 => (1usize << (32 + rng.below(30))) + k * 0x40,
-                _ => addr.next() + rng.below(16),
-            };
-            t.impl_fns.push(with_address(f, a));
-        }
-        if i % 4 == 1 {
-            // parameters that look like the receiver: a pointer to the type itself, named like
-            // the wrapper's own first parameter
-            let mutable = rng.coin();
-            let own = if mutable { Type::ident("T").mut_pointer() } else { Type::ident("T").const_pointer() };
-            let mut g = Function::new(
-                (Visibility::Public, "relink"),
-                [if mutable { Argument::MutSelf } else { Argument::ConstSelf }, Argument::named("a", Type::ident("u32")), Argument::named("this", own.clone()), Argument::named("f", own)],
-            );
+        // every fifth case is a pair of modules that each define their own `T` and name it in
+        // their signatures: a name means what it means in the module that writes it
+        let twins = i % 5 == 2;
+        let a = c05_module(&mut rng, i, 0x2000_0000 + i * 0x2000, twins);
+        let mut mods = vec![(ItemPath::from(format!("{id}a").as_str()), a)];
+        if twins {
+            let b = c05_module(&mut rng, i, 0x2000_0000 + i * 0x2000 + 0x1000, true);
+            mods.push((ItemPath::from(format!("{id}b").as_str()), b));
             if rng.coin() {
-                g.return_type = Some(Type::ident("T").const_pointer());
+                mods.reverse();
             }
-            t.impl_fns.push(with_address(g, addr.next()));
         }
-        t.add_to(&mut m);
-        // several impl blocks for one type are one set of functions
-        if i % 3 == 0 && m.impls.len() == 1 && m.impls[0].functions.len() >= 2 {
-            let blk = m.impls.remove(0);
-            let cut = rng.range(1, blk.functions.len() - 1);
-            m.impls.push(FunctionBlock::new(blk.name.as_str(), blk.functions[..cut].to_vec()));
-            m.impls.push(FunctionBlock::new(blk.name.as_str(), blk.functions[cut..].to_vec()));
-        }
-        // through the concrete syntax: any spelling of the literals
-        let text = crate::render::render_random(&m, &mut rng);
-        let m2 = match pyxis::parser::parse_str(&text) {
-            Ok(p) => p,
-            Err(_) => m,
-        };
-        out.push((id.clone(), vec![(ItemPath::from(format!("{id}a").as_str()), m2)], 8));
+        out.push((id.clone(), mods, 8));
     }
     out
 }
@@ -926,6 +941,18 @@ pub fn negatives(ctx: &mut Ctx, prop: &str) {
                 }
                 t.impl_fns.insert(pos, f);
                 t.add_to(&mut m);
+                if kind.starts_with("undefined-") && (i / 8) % 2 == 1 {
+                    // the name exists, and is used, in a module this one does not import: it is
+                    // still undefined here, whichever module is handed over or resolved first
+                    let other = pyxis::parser::parse_str("pub type Undefined { pub x: u32, }\npub type User { pub p: *const Undefined, pub q: Undefined, }\nimpl User { #[address(0x2200_0000)] pub fn take(&self, u: *const Undefined) -> *mut Undefined; }\n").expect("parses");
+                    let mut mods = vec![(ItemPath::from("kneg_o"), other), (ItemPath::from("kneg_m"), m)];
+                    if (i / 16) % 2 == 1 {
+                        mods.reverse();
+                    }
+                    let ptrw = *rng.pick(&[4, 8]);
+                    must_reject(ctx, prop, &format!("{kind}-defined-in-unimported-module"), mods, ptrw);
+                    continue;
+                }
                 must_reject(ctx, prop, kind, vec![(ItemPath::from("kneg_m"), m)], *rng.pick(&[4, 8]));
             }
         }
